@@ -130,6 +130,13 @@ func TestSim(t *testing.T) {
 	logDir, _ := os.MkdirTemp("", "simlog")
 	_ = logging.InitializeLogger(logging.WithPath(logDir), logging.WithExpireDay(1), logging.WithLogLevel(*fLogLvl))
 
+	if plan.Whitelist != nil {
+		if err := wlSetup(plan); err != nil {
+			fmt.Fprintln(os.Stderr, "sim: whitelist setup:", err)
+			os.Exit(4)
+		}
+	}
+
 	var progress int64
 	// real-time watchdog, outside the bubble: a granted poll that does not come back is a live-lock of the proxy
 	go func() {
